@@ -9,13 +9,13 @@ PairSet(S) == { b \in SUBSET S : Cardinality(b) = 2 }
 AdjOf(S, B) == [a \in S |-> { x \in S : {a, x} \in B }]
 OrdersOf(S, adj) == { o \in [1..Cardinality(S) -> S] : { o[i] : i \in DOMAIN o } = S /\ (AnyOrder \/ Admissible(S, adj, o)) }
 (* instances are chosen in two steps so that the workers share them: first a shard, then an instance of it *)
-NoInst == [n1 |-> {}, n2 |-> {}, adj1 |-> <<>>, adj2 |-> <<>>, lab1 |-> <<>>, lab2 |-> <<>>, order |-> <<>>, shard |-> <<-1, {}>>]
+NoInst == [n1 |-> {}, n2 |-> {}, adj1 |-> <<>>, adj2 |-> <<>>, lab1 |-> <<>>, lab2 |-> <<>>, order |-> <<>>, shard |-> <<-1, {}>>] @@ Plain
 Shards == { <<n, B1>> : n \in 0..NMax, B1 \in SUBSET PairSet(1..NMax) }
 InstancesOf(n, B1) ==
    IF ~(B1 \subseteq PairSet(1..n)) THEN {}
    ELSE LET Labs == [1..n -> {1, 6}]
             Cnt(l, c) == Cardinality({ a \in 1..n : l[a] = c }) IN
-        { [n1 |-> 1..n, n2 |-> 1..n, adj1 |-> AdjOf(1..n, B1), adj2 |-> AdjOf(1..n, B2), lab1 |-> ll[1], lab2 |-> ll[2], order |-> o] :
+        { [n1 |-> 1..n, n2 |-> 1..n, adj1 |-> AdjOf(1..n, B1), adj2 |-> AdjOf(1..n, B2), lab1 |-> ll[1], lab2 |-> ll[2], order |-> o] @@ Plain :
              B2 \in { b2 \in SUBSET PairSet(1..n) : Prefilter => Cardinality(b2) = Cardinality(B1) },
              ll \in { p \in Labs \X Labs : Prefilter => Cnt(p[1], 1) = Cnt(p[2], 1) },
              o \in OrdersOf(1..n, AdjOf(1..n, B1)) }
